@@ -237,7 +237,9 @@ func buildErrPlan(firstIdx int) []errPlan {
 						if p.SameDir != nil {
 							chain = append(chain, p.SameDir)
 						}
-						carryOver(append(chain, &p.FreshDir), mon.NewRNG("c18-errfault-carry", idx))
+						chain = append(chain, &p.FreshDir)
+						carryOver(chain, mon.NewRNG("c18-errfault-carry", idx))
+						contentShapes(chain, idx)
 						out = append(out, p)
 					}
 				}
@@ -348,6 +350,9 @@ func runErrFault(idx int, p errPlan, root string, pinOK bool) {
 		}
 		for j := 1; j < len(chain); j++ {
 			countOverlap("errfault.successive-writes", chain[j-1], chain[j])
+		}
+		for j, w := range chain {
+			countShapes("errfault.writes", j == 0, w)
 		}
 	}
 	d := dir.New(dir.Options{Log: quietLog(), Target: target})
